@@ -380,6 +380,16 @@ where
                 .downcast_raw(id)
                 .and(self.inner.downcast_raw(id)),
 
+            // Someone is asking whether this is a subscriber that is not
+            // there (`Option::None`, an empty `Vec`). A tree of subscribers is
+            // only absent if *both* of its branches are: one absent branch
+            // must not make the enclosing `Layered` discard the max level
+            // hint of the branch that *is* there.
+            id if id == TypeId::of::<super::NoneLayerMarker>() => self
+                .subscriber
+                .downcast_raw(id)
+                .and(self.inner.downcast_raw(id)),
+
             // Otherwise, try to downcast both branches normally...
             _ => self
                 .subscriber
